@@ -222,6 +222,13 @@ pub fn apply(store: &mut AnnotationStore, op: &Sx) -> Sx {
                 Some(Ok(())) => l(vec![a(1)]),
             }
         }
+        14 => {
+            // shrink_to_fit: a performance-only call (also made at the end of every load)
+            match guard(|| store.shrink_to_fit(true)) {
+                None => l(vec![a(-1)]),
+                Some(()) => l(vec![a(1)]),
+            }
+        }
         7 => {
             let it = res_item(op.nth(1));
             match guard(|| store.remove_resource(it)) {
